@@ -128,6 +128,28 @@ def _judge(op, dim, res, backend, cellkey, label, self_l, args, got, f64):
                                         "got": _show(got), "expected": _show(exp)})
             return
     res.err(("f64:" if f64 else "mp:") + op.group, err)
+    if f64 and op.result in ("scalar", "angle") and backend == "object" and res.counters.get("cond_estimates", 0) < 4000:
+        # how many "rounding errors" is the observed error?  condition estimate by one-ulp finite differences of the
+        # reference model in every stored input coordinate (evidence only; the verdict uses the fixed 1e-9 tolerance)
+        try:
+            eps = mpf(2) ** -52
+            base = E.eval_ref(op, self_l, args, True)
+            sens = abs(base) * eps
+            operands = [self_l] + [a for a in args if isinstance(a, E.LVec)]
+            for l in operands:
+                c0 = list(l.f64()[0])
+                for i, c in enumerate(c0):
+                    pert = list(c0)
+                    pert[i] = float(c) * (1 + 2.0 ** -50) if c != 0 else 2.0 ** -1000
+                    l2 = E.LVec(R.from_coords(l.system, pert), l.system, l.momentum)
+                    a2 = [l2 if a is l else a for a in args]
+                    val = E.eval_ref(op, l2 if l is self_l else self_l, a2, False)
+                    sens += abs(val - base) / 4
+            if sens > 0:
+                res.err("f64:error_in_units_of_(eps x condition)", abs(got - exp) / sens)
+                res.count("cond_estimates")
+        except Exception:
+            pass
     if err > violate:
         res.violation(f"C02/value-wrong op={op.name} dim={dim} backend={backend}",
                       {"cell": cellkey, "rel_error": mpmath.nstr(err, 5), "label": label,
